@@ -43,6 +43,17 @@ def check(ctx: Ctx):
     nonetest.check(ctx, m.func(f"{EM}.EmulsionTimeCourse.append"), "time", "the time stamp")
     nonetest.check(ctx, m.func(f"{EM}.Emulsion.interface_width"), "interface_width", "a member's interface width")
     col.check_linked_data(ctx)
+    col.check_order_free(ctx)
+    # merging members in place (out aliases the first operand) equals the out-of-place merge
+    from . import c11
+
+    sub = Ctx(ctx.model, ctx.prop, ctx.tier)
+    c11.check_kernel_spherical(sub)
+    c11.check_kernel_diffuse(sub)
+    for f in sub.findings:
+        if f.rule in ("ALIAS", "EFFECT"):
+            ctx.findings.append(f)
+    ctx.functions |= sub.functions
     ctx.expect("OWN", 8)
     ctx.expect("FRESH", 9)
     ctx.expect("PAIR", 8)
@@ -50,5 +61,7 @@ def check(ctx: Ctx):
     ctx.expect("REMOVE", 2)
     ctx.expect("NONETEST", 3)
     ctx.expect("LINK", 1)
+    ctx.expect("ORDERFREE", 2)
+    ctx.expect("ALIAS", 2)
     ctx.trust("list.append/pop/slicing semantics; numpy record .copy() allocates new storage")
     ctx.assume("the statistics clause (count, mean/std of radii and volumes, bounding box, trajectories, …) is not decided")
